@@ -19,6 +19,15 @@
 //!   K  (not a program family) the crate's README examples and tests/tests.rs compiled and run
 //!   X  (not a program family) the generated program type checks as an edition 2018 and an edition 2024 crate
 //!
+//! INVOCATION FORM (`Shape::form`, orthogonal to the families: every macro version of the shape, base program included,
+//! spells the invocation of the library macro in that form; the generated program has NO crate-level import of it):
+//!   u  `use rlib_lambda::rec_lambda;` (inside the function) + `rec_lambda!(..)`
+//!   p  full path, nothing imported: `rlib_lambda::rec_lambda!(..)`
+//!   r  renamed import: `use rlib_lambda::rec_lambda as rl;` + `rl!(..)`
+//!   x  through a `pub use` re-export in a nested module of the program: `crate::inv_forms::nested::rec_lambda!(..)`
+//!   m  from inside a macro_rules! of the program: `via_local_macro!(..)` (which hands its tokens to the library macro)
+//! In the forms p, r, x, m no macro called `rec_lambda` is in scope at the invocation site.
+//!
 //! In every macro version the layout of the recursive calls rotates (inline, vertical, compact); with `trailing` every
 //! one of them ends with a comma.
 use crate::{call_exprs, prelude, setup, top_args, ty, Shape};
@@ -45,6 +54,29 @@ pub fn index(f: &str) -> Option<usize> {
 
 pub fn in_program(k: usize) -> bool {
     k < 11
+}
+
+// ------------------------------------------------------------------------------------------------ invocation forms
+pub const FORMS: &str = "uprxm";
+
+/// crate-level items of every generated program that the forms x and m refer to
+pub const FORM_ITEMS: &str = "macro_rules! via_local_macro { ($($t:tt)*) => { rlib_lambda::rec_lambda!($($t)*) }; }\n\
+pub mod inv_forms { pub mod nested { pub use rlib_lambda::rec_lambda; } }\n";
+
+/// (import written at the top of the function that contains the invocation, spelling of the macro)
+pub fn inv(form: char) -> (&'static str, &'static str) {
+    match form {
+        'p' => ("", "rlib_lambda::rec_lambda"),
+        'r' => ("    use rlib_lambda::rec_lambda as rl;\n", "rl"),
+        'x' => ("", "crate::inv_forms::nested::rec_lambda"),
+        'm' => ("", "via_local_macro"),
+        _ => ("    use rlib_lambda::rec_lambda;\n", "rec_lambda"),
+    }
+}
+
+/// the import line of the macro version (nothing for the hand-written version)
+fn imp(s: &Shape, macro_side: bool) -> &'static str {
+    if macro_side { inv(s.form).0 } else { "" }
 }
 
 // ------------------------------------------------------------------------------------------------ rendering
@@ -174,17 +206,19 @@ fn ret_decl(s: &Shape) -> &'static str {
 
 /// definition of `clo`: the macro invocation, or the hand-written recursive fn + wrapper closure
 fn clo_def(s: &Shape, macro_side: bool, name: &str, body: &str) -> String {
-    clo_def_with(macro_side, name, "rec", "clo", &caps_decl(s), &args_decl(s), ret_decl(s), body,
+    clo_def_with(s.form, macro_side, name, "rec", "clo", &caps_decl(s), &args_decl(s), ret_decl(s), ret_decl(s), body,
                  &(0..s.nargs).map(|i| format!("x{}", i)).collect::<Vec<_>>(),
                  &s.caps.iter().enumerate().map(|(i, &(m, _))| format!("&{}v{}", if m { "mut " } else { "" }, i)).collect::<Vec<_>>())
 }
 
 #[allow(clippy::too_many_arguments)]
-fn clo_def_with(macro_side: bool, name: &str, hand: &str, binding: &str, caps: &str, args: &str, ret: &str, body: &str,
+/// `ret` = the declared return type (macro invocation and hand-written fn), `clo_ret` = what the hand-written wrapper
+/// closure declares (nothing where a closure cannot repeat the type: `impl Trait`, elided reference lifetimes)
+fn clo_def_with(form: char, macro_side: bool, name: &str, hand: &str, binding: &str, caps: &str, args: &str, ret: &str, clo_ret: &str, body: &str,
                 argnames: &[String], caprefs: &[String]) -> String {
     let mut o = String::new();
     if macro_side {
-        writeln!(o, "        let mut {} = rec_lambda!({}, |{}| {{", binding, name, caps).unwrap();
+        writeln!(o, "        let mut {} = {}!({}, |{}| {{", binding, inv(form).1, name, caps).unwrap();
         writeln!(o, "            |{}|{} {{", args, ret).unwrap();
         o.push_str(body);
         o.push_str("            }\n        });\n");
@@ -197,7 +231,7 @@ fn clo_def_with(macro_side: bool, name: &str, hand: &str, binding: &str, caps: &
         o.push_str("        }\n");
         let mut a: Vec<String> = argnames.to_vec();
         a.extend(caprefs.iter().cloned());
-        writeln!(o, "        let mut {} = |{}|{} {{ {}({}) }};", binding, args, ret, hand, a.join(", ")).unwrap();
+        writeln!(o, "        let mut {} = |{}|{} {{ {}({}) }};", binding, args, clo_ret, hand, a.join(", ")).unwrap();
     }
     o
 }
@@ -225,9 +259,9 @@ fn top_call_of(s: &Shape, clo: &str, args: &str) -> String {
     if s.ret { format!("        out.push({}({}));\n", clo, args) } else { format!("        {}({}); out.push(0);\n", clo, args) }
 }
 
-fn frame(idx: usize, l: char, macro_side: bool, setup: &str, def: &str, driver: &str, dump: &str) -> String {
-    format!("fn shape_{idx}_{side}{l}() {{\n{setup}    let mut out: Vec<u64> = Vec::new();\n    {{\n{def}{driver}    }}\n{dump}    emit(\"{side}{l}\", {idx}, &out);\n}}\n",
-            idx = idx, side = if macro_side { "m" } else { "h" }, l = l, setup = setup, def = def, driver = driver, dump = dump)
+fn frame(s: &Shape, idx: usize, l: char, macro_side: bool, setup: &str, def: &str, driver: &str, dump: &str) -> String {
+    format!("fn shape_{idx}_{side}{l}() {{\n{imp}{setup}    let mut out: Vec<u64> = Vec::new();\n    {{\n{def}{driver}    }}\n{dump}    emit(\"{side}{l}\", {idx}, &out);\n}}\n",
+            idx = idx, side = if macro_side { "m" } else { "h" }, l = l, imp = imp(s, macro_side), setup = setup, def = def, driver = driver, dump = dump)
 }
 
 // ------------------------------------------------------------------------------------------------ templates
@@ -326,7 +360,7 @@ fn simple(s: &Shape, idx: usize, l: char, macro_side: bool, tpl_ret: &str, tpl_n
     let body = fill(if s.ret { tpl_ret } else { tpl_noret }, &r, &call_exprs(s.nargs), s, &prelude(s));
     let def = clo_def(s, macro_side, "f", &body);
     let driver: String = firsts.iter().map(|&f| top_call(s, f)).collect();
-    frame(idx, l, macro_side, &setup(s), &def, &driver, &dump(s))
+    frame(s, idx, l, macro_side, &setup(s), &def, &driver, &dump(s))
 }
 
 // ------------------------------------------------------------------------------------------------ A: arguments using captures
@@ -381,7 +415,7 @@ fn fam_a(s: &Shape, idx: usize, macro_side: bool) -> String {
     let body = fill(&b, &r, &es, s, &prelude(s));
     let def = clo_def(s, macro_side, "f", &body);
     let driver = format!("{}{}", top_call(s, 3), top_call(s, 2));
-    frame(idx, 'A', macro_side, &setup(s), &def, &driver, &dump(s))
+    frame(s, idx, 'A', macro_side, &setup(s), &def, &driver, &dump(s))
 }
 
 // ------------------------------------------------------------------------------------------------ D: depth
@@ -408,7 +442,7 @@ fn fam_d(s: &Shape, idx: usize, depth: u64, macro_side: bool) -> String {
     let body = fill(tpl, &r, &call_exprs(s.nargs), s, &pre);
     let def = clo_def(s, macro_side, "f", &body);
     let driver = format!("{}{}{}", top_call(s, depth), top_call(s, 3), top_call(s, depth / 2));
-    frame(idx, 'D', macro_side, &setup(s), &def, &driver, &dump(s))
+    frame(s, idx, 'D', macro_side, &setup(s), &def, &driver, &dump(s))
 }
 
 // ------------------------------------------------------------------------------------------------ H: long histories
@@ -442,7 +476,7 @@ fn fam_h(s: &Shape, idx: usize, count: u64, macro_side: bool) -> String {
         writeln!(driver, "            clo({});", args).unwrap();
     }
     driver.push_str("        }\n        out.push(acc);\n");
-    frame(idx, 'H', macro_side, &setup(s), &def, &driver, &dump(s))
+    frame(s, idx, 'H', macro_side, &setup(s), &def, &driver, &dump(s))
 }
 
 // ------------------------------------------------------------------------------------------------ R: rounds, repeats, panic
@@ -465,7 +499,7 @@ fn fam_r(s: &Shape, idx: usize, macro_side: bool) -> String {
     let body = fill(if s.ret { R_RET } else { R_NORET }, &r, &call_exprs(s.nargs), s, &prelude(s));
     let def = clo_def(s, macro_side, "f", &body);
     let mut o = String::new();
-    writeln!(o, "fn shape_{}_{}R() {{\n    let mut out: Vec<u64> = Vec::new();\n    for round in 0..3u64 {{", idx, if macro_side { "m" } else { "h" }).unwrap();
+    writeln!(o, "fn shape_{}_{}R() {{\n{}    let mut out: Vec<u64> = Vec::new();\n    for round in 0..3u64 {{", idx, if macro_side { "m" } else { "h" }, imp(s, macro_side)).unwrap();
     o.push_str(&setup_salted(s, "round"));
     o.push_str("    {\n");
     o.push_str(&def);
@@ -490,14 +524,14 @@ fn fam_g(s: &Shape, idx: usize, macro_side: bool) -> String {
     let mk_def = |binding: &str, hand: &str| {
         let r = Rend::new(s, if macro_side { Some("f") } else { None }, hand);
         let body = fill(tpl, &r, &call_exprs(s.nargs), s, &prelude(s));
-        clo_def_with(macro_side, "f", hand, binding, &caps_decl(s), &args_decl(s), ret_decl(s), &body,
+        clo_def_with(s.form, macro_side, "f", hand, binding, &caps_decl(s), &args_decl(s), ret_decl(s), ret_decl(s), &body,
                      &(0..s.nargs).map(|i| format!("x{}", i)).collect::<Vec<_>>(),
                      &s.caps.iter().enumerate().map(|(i, &(m, _))| format!("&{}v{}", if m { "mut " } else { "" }, i)).collect::<Vec<_>>())
     };
     let def = mk_def("clo", "rec");
     let site = format!("{}    {{\n{}{}{}    }}\n{}", setup_salted(s, "salt"), def, top_call(s, 3), top_call(s, 2), dump(s));
     let mut o = String::new();
-    writeln!(o, "fn shape_{}_{}G() {{\n    let mut out: Vec<u64> = Vec::new();", idx, side).unwrap();
+    writeln!(o, "fn shape_{}_{}G() {{\n{}    let mut out: Vec<u64> = Vec::new();", idx, side, imp(s, macro_side)).unwrap();
     // (a) generic fn
     writeln!(o, "    fn g1<T: Copy + Into<u64>>(t: T, out: &mut Vec<u64>) {{\n    let salt: u64 = t.into();\n{}    }}", site).unwrap();
     o.push_str("    g1::<u32>(5u32, &mut out);\n    g1::<u64>(7u64, &mut out);\n");
@@ -577,7 +611,7 @@ fn fam_n_items(s: &Shape, idx: usize) -> String {
 fn fam_n(s: &Shape, idx: usize, l: char, macro_side: bool) -> String {
     let side = if macro_side { "m" } else { "h" };
     let mut o = String::new();
-    writeln!(o, "fn shape_{}_{}{}() {{\n    let mut out: Vec<u64> = Vec::new();", idx, side, l).unwrap();
+    writeln!(o, "fn shape_{}_{}{}() {{\n{}    let mut out: Vec<u64> = Vec::new();", idx, side, l, imp(s, macro_side)).unwrap();
     let free = format!("nfree_{}", idx);
     let free_args: String = std::iter::once("x0 / 2".to_string()).chain((1..s.nargs).map(|i| format!("x{}", i))).collect::<Vec<_>>().join(", ");
     // (recursion name, binding, renames, uses the free fn)
@@ -614,7 +648,7 @@ fn fam_n(s: &Shape, idx: usize, l: char, macro_side: bool) -> String {
             tpl.push_str(&(if s.ret { T_RET } else { T_NORET }).replace("@PRE@", ""));
         }
         let body = fill(&tpl, &r, &call_exprs(s.nargs), s, &prelude(s));
-        let def = clo_def_with(macro_side, &name, "rec", &binding, &caps_decl(s), &args_decl(s), ret_decl(s), &body,
+        let def = clo_def_with(s.form, macro_side, &name, "rec", &binding, &caps_decl(s), &args_decl(s), ret_decl(s), ret_decl(s), &body,
                                &(0..s.nargs).map(|i| format!("x{}", i)).collect::<Vec<_>>(),
                                &s.caps.iter().enumerate().map(|(i, &(m, _))| format!("&{}v{}", if m { "mut " } else { "" }, i)).collect::<Vec<_>>());
         let driver = format!("{}{}", top_call_of(s, &binding, &top_args(s.nargs, 3)), top_call_of(s, &binding, &top_args(s.nargs, 2)));
@@ -678,22 +712,36 @@ fn cap_ty(c: char) -> CapTy {
     }
 }
 
-struct RetTy { ty: &'static str, mk: &'static str, get: &'static str }
+/// `clo` = the hand-written wrapper closure can repeat the type (`impl Trait` is not allowed in closure return types, a
+/// reference type with an elided lifetime means something else there)
+struct RetTy { ty: &'static str, mk: &'static str, get: &'static str, clo: bool }
+
+/// return types that borrow from the shape's single shared capture `v0: &Vec<u64>` (lifetime elision of the generated
+/// fn needs exactly one reference among its parameters)
+pub const RET_REFS: &str = "RQ";
 
 /// `{e}` = a u64 expression, `{r}` = a returned value
 fn ret_ty(c: char) -> RetTy {
     match c {
-        'n' => RetTy { ty: "()", mk: "{ let _ = {e}; }", get: "{ {r}; 0u64 }" },
-        'b' => RetTy { ty: "bool", mk: "({e}) % 2 == 0", get: "(({r}) as u64)" },
-        't' => RetTy { ty: "(u64, bool)", mk: "{ let z = {e}; (z, z % 3 == 0) }", get: "{ let z = {r}; z.0.wrapping_add(z.1 as u64) }" },
-        'v' => RetTy { ty: "Vec<u64>", mk: "{ let z = {e}; vec![z, z % 7] }", get: "{ let z = {r}; z[0].wrapping_add(z[1]).wrapping_add(z.len() as u64) }" },
-        'o' => RetTy { ty: "Option<u64>", mk: "Some({e})", get: "({r}).unwrap_or(9)" },
-        'r' => RetTy { ty: "Result<u64, String>", mk: "Ok({e})", get: "({r}).unwrap_or(11)" },
-        'x' => RetTy { ty: "Box<u64>", mk: "Box::new({e})", get: "*({r})" },
-        'a' => RetTy { ty: "[u64; 2]", mk: "{ let z = {e}; [z, 1] }", get: "{ let z = {r}; z[0].wrapping_add(z[1]) }" },
-        's' => RetTy { ty: "String", mk: "format!(\"{}\", ({e}) % 100000)", get: "{ let z = {r}; (z.len() as u64).wrapping_add(z.parse::<u64>().unwrap_or(0)) }" },
-        'z' => RetTy { ty: "usize", mk: "(({e}) % 1000000007) as usize", get: "(({r}) as u64)" },
-        _ => RetTy { ty: "u64", mk: "{e}", get: "({r})" },
+        // opaque types: every return site of the body builds the same concrete type
+        'I' => RetTy { ty: "impl Iterator<Item = u64>", mk: "{ let z = {e}; vec![z, z % 7].into_iter() }", get: "{ let z: Vec<u64> = ({r}).collect(); z[0].wrapping_add(z[1]).wrapping_add(z.len() as u64) }", clo: false },
+        'F' => RetTy { ty: "impl Fn(u64) -> u64", mk: "yhelp_fn({e})", get: "({r})(5)", clo: false },
+        'S' => RetTy { ty: "impl Sized", mk: "{e}", get: "{ let z = {r}; std::mem::size_of_val(&z) as u64 }", clo: false },
+        'D' => RetTy { ty: "impl std::fmt::Display", mk: "({e}) % 100000", get: "{ let z = format!(\"{}\", {r}); (z.len() as u64).wrapping_add(z.parse::<u64>().unwrap_or(0)) }", clo: false },
+        // references derived from the shared capture v0
+        'R' => RetTy { ty: "&u64", mk: "&v0[(({e}) % 2) as usize]", get: "*({r})", clo: false },
+        'Q' => RetTy { ty: "Option<&u64>", mk: "v0.get((({e}) % 3) as usize)", get: "({r}).copied().unwrap_or(9)", clo: false },
+        'n' => RetTy { ty: "()", mk: "{ let _ = {e}; }", get: "{ {r}; 0u64 }", clo: true },
+        'b' => RetTy { ty: "bool", mk: "({e}) % 2 == 0", get: "(({r}) as u64)", clo: true },
+        't' => RetTy { ty: "(u64, bool)", mk: "{ let z = {e}; (z, z % 3 == 0) }", get: "{ let z = {r}; z.0.wrapping_add(z.1 as u64) }", clo: true },
+        'v' => RetTy { ty: "Vec<u64>", mk: "{ let z = {e}; vec![z, z % 7] }", get: "{ let z = {r}; z[0].wrapping_add(z[1]).wrapping_add(z.len() as u64) }", clo: true },
+        'o' => RetTy { ty: "Option<u64>", mk: "Some({e})", get: "({r}).unwrap_or(9)", clo: true },
+        'r' => RetTy { ty: "Result<u64, String>", mk: "Ok({e})", get: "({r}).unwrap_or(11)", clo: true },
+        'x' => RetTy { ty: "Box<u64>", mk: "Box::new({e})", get: "*({r})", clo: true },
+        'a' => RetTy { ty: "[u64; 2]", mk: "{ let z = {e}; [z, 1] }", get: "{ let z = {r}; z[0].wrapping_add(z[1]) }", clo: true },
+        's' => RetTy { ty: "String", mk: "format!(\"{}\", ({e}) % 100000)", get: "{ let z = {r}; (z.len() as u64).wrapping_add(z.parse::<u64>().unwrap_or(0)) }", clo: true },
+        'z' => RetTy { ty: "usize", mk: "(({e}) % 1000000007) as usize", get: "(({r}) as u64)", clo: true },
+        _ => RetTy { ty: "u64", mk: "{e}", get: "({r})", clo: true },
     }
 }
 
@@ -703,7 +751,8 @@ fn fam_y_items(_s: &Shape, idx: usize) -> String {
     String::new()
 }
 
-pub const Y_HELPERS: &str = "fn yhelp_a(z: u64) -> u64 { z.wrapping_mul(2).wrapping_add(1) }\nfn yhelp_b(z: u64) -> u64 { z.wrapping_mul(5).wrapping_add(2) }\n";
+pub const Y_HELPERS: &str = "fn yhelp_a(z: u64) -> u64 { z.wrapping_mul(2).wrapping_add(1) }\nfn yhelp_b(z: u64) -> u64 { z.wrapping_mul(5).wrapping_add(2) }\n\
+fn yhelp_fn(z: u64) -> impl Fn(u64) -> u64 { move |w: u64| z.wrapping_mul(3).wrapping_add(w) }\n";
 
 fn fam_y(s: &Shape, idx: usize, macro_side: bool) -> String {
     let n = s.nargs;
@@ -711,9 +760,13 @@ fn fam_y(s: &Shape, idx: usize, macro_side: bool) -> String {
         let c = s.atys.chars().nth(k).unwrap_or('a');
         if k == 0 && !arg_ty(c).first_ok { 'a' } else { c }
     }).collect();
-    let ctys: Vec<char> = s.caps.iter().enumerate().map(|(i, &(_, sc))| s.ctys.chars().nth(i).unwrap_or(if sc { 'U' } else { 'V' })).collect();
-    let rty = if s.ret { Some(ret_ty(s.rty)) } else { None };
-    let rc = if s.ret { s.rty } else { '-' };
+    let mut ctys: Vec<char> = s.caps.iter().enumerate().map(|(i, &(_, sc))| s.ctys.chars().nth(i).unwrap_or(if sc { 'U' } else { 'V' })).collect();
+    // a returned reference needs exactly one reference among the parameters of the generated fn: one shared capture
+    // (made a Vec<u64>), no reference-typed argument; on any other shape the return type falls back to u64
+    let ref_ok = s.caps.len() == 1 && !s.caps[0].0 && !atys.iter().any(|c| "gijn".contains(*c));
+    let rc = if !s.ret { '-' } else if RET_REFS.contains(s.rty) && !ref_ok { 'u' } else { s.rty };
+    if RET_REFS.contains(rc) { ctys[0] = 'V'; }
+    let rty = if s.ret { Some(ret_ty(rc)) } else { None };
     let sub = |t: &str, x: &str, k: &str, j: usize| t.replace("{x}", x).replace("{k}", k).replace("{j}", &j.to_string());
     let r = Rend::new(s, if macro_side { Some("f") } else { None }, "rec");
 
@@ -772,7 +825,8 @@ fn fam_y(s: &Shape, idx: usize, macro_side: bool) -> String {
     }).collect::<Vec<_>>().join(", ");
     let args = (0..n).map(|k| format!("x{}: {}", k, arg_ty(atys[k]).ty)).collect::<Vec<_>>().join(", ");
     let ret = match &rty { Some(rt) => format!(" -> {}", rt.ty), None => String::new() };
-    let def = clo_def_with(macro_side, "f", "rec", "clo", &caps, &args, &ret, &body,
+    let clo_ret = match &rty { Some(rt) if rt.clo => ret.clone(), _ => String::new() };
+    let def = clo_def_with(s.form, macro_side, "f", "rec", "clo", &caps, &args, &ret, &clo_ret, &body,
                            &(0..n).map(|i| format!("x{}", i)).collect::<Vec<_>>(),
                            &s.caps.iter().enumerate().map(|(i, &(m, _))| format!("&{}v{}", if m { "mut " } else { "" }, i)).collect::<Vec<_>>());
     let mut st = String::new();
@@ -811,7 +865,7 @@ fn fam_y(s: &Shape, idx: usize, macro_side: bool) -> String {
     for k in 1..n {
         if atys[k] == 'j' { writeln!(dp, "    out.push(obuf{k}.len() as u64); out.push(vh(&obuf{k}));", k = k).unwrap(); }
     }
-    frame(idx, 'Y', macro_side, &st, &def, &driver, &dp)
+    frame(s, idx, 'Y', macro_side, &st, &def, &driver, &dp)
 }
 
 // ------------------------------------------------------------------------------------------------ entry points
